@@ -6,6 +6,9 @@ NAMESETS = [
      "s1": "foo-bar-1:2.3-4.el7.src", "s2": "lib3-0:1.0.0-1.fc22.src", "n1": "blob-0:9-9.nosrc"},
     {"b1": "7zip-12:9.20~rc1-3.i686", "d1": "7zip-debugsource-12:9.20~rc1-3.i686", "b2": "a+b_c.d-2-0:2^git1-0.1.s390x",
      "s1": "7zip-12:9.20~rc1-3.src", "s2": "a+b_c.d-0:2^git1-0.1.nosrc", "n1": "x-0:1-1.src"},
+    # package arches whose last letters are those of the ".rpm" suffix
+    {"b1": "arm-boot-0:1.0-1.fc40.armhfp", "d1": "arm-boot-debugsource-0:1.0-1.fc40.armhfp", "b2": "libm-2:3-4.rpm.armhfp",
+     "s1": "arm-boot-0:1.0-1.fc40.src", "s2": "libm-2:3-4.rpm.src", "n1": "firm.rpm-0:1-1.nosrc"},
 ]
 ARCHSETS = [{"bin1": "x86_64", "bin2": "ppc64le"}, {"bin1": "noarch", "bin2": "aarch64"}, {"bin1": "s390x", "bin2": "i386"}]
 PATHS = {"rel1": "Server/x86_64/os/Packages/f/pkg.rpm", "rel2": "Packages/other.rpm", "abs": "/mnt/koji/pkg.rpm", "empty": ""}
